@@ -44,50 +44,64 @@ def verifyDefault (legal : List String) (err : PyErr) (v : Str) : Except PyErr S
 def isBoolAttr (a : Str) : Bool := Gen.BOOL_TYPE_ATTRIBUTES.any (fun x => x.toList == a)
 def isCfgAttr (a : Str) : Bool := Gen.CONFIG_ATTRIBUTES.any (fun x => x.toList == a)
 
+/-- the value part of `_set_str_to_values`: `Except` for the default-direction checks, `none` = leave unset -/
+def valueFor (attr : Str) (value : Option Str) (defaultBool : Option Bool) : Except PyErr (Option CV) :=
+  if isBoolAttr attr then
+    match value with
+    | none => .ok (defaultBool.map CV.b)
+    | some t => .ok (strToValue t)
+  else if attr == S "default_ns" then
+    match value with
+    | none => .ok none
+    | some t => (verifyDefault Gen.LEGAL_NS .defaultNS t).map (fun d => some (CV.s d))
+  else if attr == S "default_ew" then
+    match value with
+    | none => .ok none
+    | some t => (verifyDefault Gen.LEGAL_EW .defaultEW t).map (fun d => some (CV.s d))
+  else
+    -- str_to_value(None) -> 'None' -> None
+    .ok (match value with | none => none | some t => strToValue t)
+
+/-- `attrib_val.split(…)`: (attribute, value?) -/
+def splitAttrVal (line : Str) : Str × Option Str :=
+  match Gen.inl_config_Config__set_str_to_values_0.split line with
+  | [a, v] => (a, some v)
+  | _ => (line, none)
+
 /-- `_set_str_to_values(attrib_val, default_bool)` -/
-def setStrToValues (c : Cfg) (line : Str) (defaultBool : Option Bool) : Except PyErr Cfg := do
-  let parts := Gen.inl_config_Config__set_str_to_values_0.split line
-  let (attr, value) : Str × Option Str := match parts with
-    | [a, v] => (a, some v)
-    | _ => (line, none)
-  if !isCfgAttr attr then throw .valueError
-  let an := String.ofList attr
-  let v : Option CV ←
-    if isBoolAttr attr then
-      match value with
-      | none => pure (defaultBool.map CV.b)
-      | some t => pure (strToValue t)
-    else if an == "default_ns" then
-      match value with
-      | none => pure none
-      | some t => do let d ← verifyDefault Gen.LEGAL_NS .defaultNS t; pure (some (CV.s d))
-    else if an == "default_ew" then
-      match value with
-      | none => pure none
-      | some t => do let d ← verifyDefault Gen.LEGAL_EW .defaultEW t; pure (some (CV.s d))
-    else
-      -- str_to_value(None) -> 'None' -> None
-      pure (match value with | none => none | some t => strToValue t)
-  match v with
-  | some x => return c.set an x
-  | none => return c
+def setStrToValues (c : Cfg) (line : Str) (defaultBool : Option Bool) : Except PyErr Cfg :=
+  let av := splitAttrVal line
+  if !isCfgAttr av.1 then .error .valueError else
+  match valueFor av.1 av.2 defaultBool with
+  | .error e => .error e
+  | .ok (some x) => .ok (c.set (String.ofList av.1) x)
+  | .ok none => .ok c
 
 def inStrs (l : List String) (s : Str) : Bool := l.any (fun x => x.toList == s)
 
+/-- one comma-separated item of a config text -/
+def ofTextLine (c : Cfg) (line : Str) : Except PyErr Cfg :=
+  if line.isEmpty then .ok c else
+  let head := (Gen.inl_config_Config__text_to_attributes_2.split line).head?.getD []
+  if isBoolAttr head then setStrToValues c line (some true)
+  else if inStrs Gen.LEGAL_NS line then .ok (c.set "default_ns" (.s line))
+  else if inStrs Gen.LEGAL_EW line then .ok (c.set "default_ew" (.s line))
+  else if inStrs Gen.IMPLEMENTED_LAYOUTS line then .ok (c.set "layout" (.s line))
+  else setStrToValues c line none
+
+def ofTextLines : Cfg → List Str → Except PyErr Cfg
+  | c, [] => .ok c
+  | c, line :: rest =>
+    match ofTextLine c line with
+    | .error e => .error e
+    | .ok c' => ofTextLines c' rest
+
+/-- the items of a config text: white space removed, split at ',' / ';' -/
+def textItems (text : Str) : List Str :=
+  Gen.inl_config_Config__text_to_attributes_1.split (Gen.inl_config_Config__text_to_attributes_0.sub [] text)
+
 /-- `Config(config_text)._text_to_attributes` -/
-def ofText (text : Str) : Except PyErr Cfg := do
-  let t := Gen.inl_config_Config__text_to_attributes_0.sub [] text
-  let lines := Gen.inl_config_Config__text_to_attributes_1.split t
-  let mut c : Cfg := []
-  for line in lines do
-    if line.isEmpty then continue
-    let head := (Gen.inl_config_Config__text_to_attributes_2.split line).head?.getD []
-    if isBoolAttr head then c ← setStrToValues c line (some true)
-    else if inStrs Gen.LEGAL_NS line then c := c.set "default_ns" (.s line)
-    else if inStrs Gen.LEGAL_EW line then c := c.set "default_ew" (.s line)
-    else if inStrs Gen.IMPLEMENTED_LAYOUTS line then c := c.set "layout" (.s line)
-    else c ← setStrToValues c line none
-  return c
+def ofText (text : Str) : Except PyErr Cfg := ofTextLines [] (textItems text)
 
 def cvTruthy : CV → Bool
   | .b v => v
